@@ -79,7 +79,7 @@ Definition ransac_probability {T} (N : NumOps T) : T :=
 (* ------------------------------------------------------------------------------------------------
    Ransac::estimateModel over an abstract model.
    The model object is a state [S] with three oracles; every call is logged as an event. *)
-Inductive rcall : Type := EvDraw | EvCount | EvRefine.
+Inductive rcall : Type := EvDraw | EvCount (returned : Z) | EvRefine.
 
 Record est_result (S : Type) : Type := mkEst {
   er_ok : bool;              (* return value                                                   *)
@@ -117,12 +117,12 @@ Section Estimate.
           let cf := f32round c in                      (* float numberOfInliers = countInliers() *)
           if f32round best <? cf then                  (* numberOfInliers > bestNumberOfInliers  *)
             match est_loop f (iter + 1) cf (Some iter) (iters_update N its cf sdraw) s2 with
-            | Some r => Some (mkLoop (lr_iters r) (lr_best r) (lr_chosen r) (EvDraw :: EvCount :: lr_events r) (lr_state r))
+            | Some r => Some (mkLoop (lr_iters r) (lr_best r) (lr_chosen r) (EvDraw :: EvCount c :: lr_events r) (lr_state r))
             | None => None
             end
           else
             match est_loop f (iter + 1) best chosen its s2 with
-            | Some r => Some (mkLoop (lr_iters r) (lr_best r) (lr_chosen r) (EvDraw :: EvCount :: lr_events r) (lr_state r))
+            | Some r => Some (mkLoop (lr_iters r) (lr_best r) (lr_chosen r) (EvDraw :: EvCount c :: lr_events r) (lr_state r))
             | None => None
             end
         else
